@@ -9,7 +9,7 @@ def cR(v): return dict(t="result", v=v)
 
 def retry(max=2, h=(), a=(), rlf=False, dly=0, maxd=0): return dict(k="retry", max=max, h=list(h), a=list(a), rlf=rlf, dly=dly, maxd=maxd)
 def to(limit): return dict(k="to", limit=limit)
-def hg(maxh=1, delay=2, c=()): return dict(k="hg", maxh=maxh, delay=delay, c=list(c))
+def hg(maxh=1, delay=2, c=(), delays=()): return dict(k="hg", maxh=maxh, delay=delay, c=list(c), delays=list(delays))
 def fb(fr="RF", fe=None, h=()): return dict(k="fb", fr=fr, fe=leaf(fe) if fe else NIL, h=list(h))
 def bh(id, max=1, wait=0): return dict(k="bh", id=id, max=max, wait=wait)
 BR1 = dict(fthr=1, fcap=1, frate=0, fexec=0, period=0, sthr=0, scap=0, delay=1000)
@@ -21,7 +21,7 @@ def env(what, at, x=0, id="", gap=0): return dict(at=at, what=what, x=x, **{"asy
 
 
 def scenario(stack, fns, envs, tld=0, async_fix=None, unit_ns=1_000_000, default=None, readers=False):
-    nx = max([e["x"] for e in envs if e["what"] == "Start"] + [0])
+    nx = max([e["x"] for e in envs if e["what"] == "Start"] + [1])
     bhmax = {d["id"]: d["max"] for d in stack if d["k"] == "bh"}
     envs = sorted(envs, key=lambda e: e["at"])
     return dict(stack=stack, fns=fns, fnDefault=default or fn(0, "R2"), env=envs, nx=nx, tld=tld,
